@@ -441,7 +441,8 @@ pub fn run_c17(cfg: &Cfg) -> Report {
         one!((u8,)); one!((u8, i16)); one!((u8, i16, String)); one!([u8; 0]); one!([u8; 1]); one!([u32; 4]);
         one!(Vec<u8>); one!(Vec<String>); one!(Vec<Vec<u16>>); one!(std::collections::BTreeSet<u16>); one!(std::collections::BTreeMap<String, u16>);
         one!(Option<u8>); one!(Option<String>); one!(Result<u16, String>);
-        one!(std::ops::Range<u16>); one!(std::ops::RangeInclusive<i32>);
+        one!(std::ops::Range<u16>); one!(std::ops::RangeInclusive<i32>); one!(std::ops::RangeFrom<u8>); one!(std::ops::RangeTo<u64>);
+        one!(crate::corpus::SReprT); one!(crate::corpus::SReprField); one!(crate::corpus::SReprE);
         one!(crate::corpus::SNew); one!(crate::corpus::STup); one!(crate::corpus::SEmptyTup); one!(crate::corpus::SNamed); one!(crate::corpus::SEmptyNamed); one!(crate::corpus::SUnsorted);
         one!(crate::corpus::SBasic); one!(crate::corpus::SData); one!(crate::corpus::SNested); one!(crate::corpus::SStd); one!(crate::corpus::SArrays); one!(crate::corpus::SGen<u16>); one!(crate::corpus::SLevel); one!(crate::corpus::SRaw); one!(Vec<crate::corpus::SLevel>); one!(Vec<crate::corpus::SUnit>); one!(Vec<[u8; 0]>); one!(Vec<()>);
     });
